@@ -25,6 +25,7 @@ import (
 	"github.com/emitter-io/emitter/internal/security"
 	"github.com/emitter-io/emitter/internal/security/license"
 	"github.com/emitter-io/emitter/internal/verifx/engine/core"
+	"github.com/emitter-io/emitter/internal/verifx/engine/sched"
 )
 
 func init() {
@@ -640,6 +641,10 @@ func checkParse(c *core.Ctx, pc parseCase) {
 // worker: "parse <start> <end>" runs the license-string cases [start, end), journalling each index
 // before it runs so that a fatal abort (out of memory, stack overflow) is attributed.
 func worker(c *core.Ctx, args []string) {
+	if len(args) > 0 && args[0] == "sched" {
+		sched.WorkerMain(c, concScenarios(), args[1:])
+		return
+	}
 	if len(args) < 3 || args[0] != "parse" {
 		core.HarnessFailure("C20 worker: bad arguments %v", args)
 	}
@@ -724,9 +729,20 @@ func run(c *core.Ctx) {
 		for ver := 1; ver <= 3; ver++ {
 			partKey(c, ver, s+byte(c.Seed), nbg)
 			partStr(c, ver, s+byte(c.Seed))
+			partOrder(c, ver, s+byte(c.Seed))
 		}
 	}
 	partParse(c)
+	// the XTEA rounds are a long straight line of statements: one preemption (a whole call of the other caller
+	// inserted at every statement boundary) in the quick tier, two in the thorough tier
+	bound := 1
+	if !c.Quick() {
+		bound = 2
+	}
+	c.Set("sched_bound_completed", sched.Drive(c, concOrder, bound))
+	c.Set("sched_schedules", c.Count("schedules"))
+	c.Add("evaluations", c.Count("schedules"))
+	c.Assume("concurrent use of a cipher: statement-level, sequentially consistent interleavings of two callers")
 	c.Sample(parseCase{Part: "parse", Base: 0, Family: "fill", Pos: 8, Suffix: "", InputHex: hex.EncodeToString([]byte("AAAAAAAA")), Input: `"AAAAAAAA"`})
 	c.Set("evaluations", c.Count("evaluations"))
 	c.Set("distinct_nontrivial", c.Count("nontrivial"))
@@ -736,6 +752,9 @@ func run(c *core.Ctx) {
 }
 
 func replay(c *core.Ctx, raw json.RawMessage) {
+	if sched.ReplayCase(c, concScenarios(), raw) {
+		return
+	}
 	var probe struct {
 		Part string `json:"part"`
 	}
@@ -764,6 +783,10 @@ func replay(c *core.Ctx, raw json.RawMessage) {
 		var pc parseCase
 		json.Unmarshal(raw, &pc)
 		checkParse(c, pc)
+	case "ord":
+		var oc ordCase
+		json.Unmarshal(raw, &oc)
+		checkOrder(c, oc)
 	default:
 		core.HarnessFailure("C20 replay: unknown part %q", probe.Part)
 	}
